@@ -114,6 +114,9 @@ def workload(tier, seed, scale=1.0):
                 top = abs(a).bit_length()
                 idx = {0, 1, 63, 64, 65, tz - 1, tz, tz + 1, tz + 64, top - 1, top, top + 1, 64 * n - 1, 64 * n, 64 * n + 1, 64 * n + 63, 64 * (n + 2) + 5,
                        (tz // 64) * 64, (tz // 64) * 64 + 63, rnd.randrange(0, 64 * n + 70)}
+                # read-only queries far beyond the value (an index that does not fit u32 / whose low 32 bits are small)
+                for k in ((1 << 32), (1 << 32) + 1, (1 << 32) + 63, (1 << 33) + 5, (1 << 40) + tz, (1 << 63), (1 << 64) - 1, (1 << 32) + top - 1):
+                    cmds.append(cmd_bit(a, k, kind, cell=('bit', kind, a < 0, 'huge-index', k.bit_length())))
                 for k in sorted(i for i in idx if i >= 0):
                     rel = 'lt_tz' if k < tz else 'eq_tz' if k == tz else ('beyond' if k >= 64 * n else 'gt_tz')
                     cmds.append(cmd_bit(a, k, kind, cell=('bit', kind, a < 0, rel, k % 64 in (0, 63))))
